@@ -300,6 +300,15 @@ func replayFor(l *Loader, spec *PropSpec, r *UnitResult, o *Obl, outDir string) 
 			return rr
 		}
 	}
+	var postNote string
+	if o.Kind == "post" && r.Kind == "func" {
+		rr := replayPost(l, fn, o, outDir)
+		if rr.Confirmed {
+			return rr
+		}
+		postNote = rr.Note
+	}
+	_ = postNote
 	// a failed contract clause of a function: look for a concrete property-level counterexample by
 	// running the property's lemma harnesses with callee bodies inlined instead of their contracts
 	if !lemmaSearchDone {
